@@ -28,20 +28,27 @@ def _kernel_pivot_rows(kernel_vectors: np.ndarray) -> np.ndarray:
 def _constrain_matrix(
     mat: sparse.sparray | spmatrix,
     pivot_rows: np.ndarray,
+    equation_rows: np.ndarray | None = None,
 ) -> sparse.csr_array:
-    """Replace selected equations with x[row] = 0 constraints."""
+    """Replace selected equations with x[row] = 0 constraints.
+
+    The equations ``equation_rows`` (by default ``pivot_rows``) are dropped and
+    replaced by the constraints ``x[pivot_rows] = 0``.
+    """
     constrained = sparse.csr_array(mat)
     if pivot_rows.size == 0:
         return constrained
+    if equation_rows is None:
+        equation_rows = pivot_rows
 
     pivot_mask = np.zeros(constrained.shape[0], dtype=bool)
-    pivot_mask[pivot_rows] = True
+    pivot_mask[equation_rows] = True
 
-    # Drop all entries on constrained rows, then add back the diagonal ones
-    # that enforce x[row] = 0 on those rows.
+    # Drop all entries on the dropped equations, then add the entries that
+    # enforce x[row] = 0 there.
     constrained_coo = constrained.tocoo(copy=False)
     keep = ~pivot_mask[constrained_coo.row]
-    rows = np.concatenate((constrained_coo.row[keep], pivot_rows))
+    rows = np.concatenate((constrained_coo.row[keep], equation_rows))
     cols = np.concatenate((constrained_coo.col[keep], pivot_rows))
     data = np.concatenate(
         (
@@ -106,9 +113,16 @@ def direct_greens_function(
             stacklevel=2,
         )
 
+    # The variables fixed by the gauge are chosen from the right kernel, but
+    # which equations are redundant is decided by the left kernel.
     pivot_rows = _kernel_pivot_rows(kernel_vectors)
+    equation_rows = (
+        pivot_rows
+        if left_kernel_vectors is kernel_vectors
+        else _kernel_pivot_rows(left_kernel_vectors)
+    )
     kernel_projector = ComplementProjector(kernel_vectors, left_kernel_vectors)
-    mat = _constrain_matrix(mat, pivot_rows)
+    mat = _constrain_matrix(mat, pivot_rows, equation_rows)
 
     is_complex = np.iscomplexobj(mat.data)
     try:
@@ -145,7 +159,7 @@ def direct_greens_function(
 
         """
         vec = kernel_projector @ vec
-        vec[pivot_rows] = 0
+        vec[equation_rows] = 0
 
         if np.iscomplexobj(vec) and not is_complex:
             vec = (vec.real, vec.imag)
